@@ -190,6 +190,69 @@ fn gen_history(rng: &mut StdRng, nops: usize, delete_all: bool, avoid_f0: bool, 
     ops
 }
 
+/// Two indexing workers register the files of their segments at the same time: one of them is parked
+/// right before it replaces `.managed.json` (its k-th registration) until the other one has registered
+/// and created a whole segment (or, when registrations are serialised by a lock, until a time-out).
+fn run_manrace(tracer: &Tracer, rng: &mut StdRng, r: u64, tag: Value) {
+    use std::sync::{Arc, Condvar, Mutex};
+    use std::time::Duration;
+    tracer.reset_canon();
+    let mut cfg = Cfg::default();
+    cfg.threads = 2;
+    cfg.flush_after = 1;
+    cfg.merge = "none".into();
+    tracer.emit(json!({"ev":"reset","cfg":cfg.to_json(),"tag":tag}));
+    let mut w = World::new_quiet(tracer, &cfg, false);
+    install_sink(tracer, w.regs.clone(), None);
+    w.exec(&json!({"op":"new_writer"}));
+    let k = 2 + r % 5;
+    // (registrations of the victim, victim role, parked, creations by others since parked, released)
+    let st = Arc::new((Mutex::new((0u64, String::new(), false, 0u64, false)), Condvar::new()));
+    let st2 = st.clone();
+    w.dir.set_gate(Some(Arc::new(move |op: &vh::simdir::OpInfo, after: bool| {
+        if !op.role.starts_with("worker") {
+            return;
+        }
+        let (m, cv) = &*st2;
+        let mut g = m.lock().unwrap();
+        if op.op == "atomic_write" && op.path == ".managed.json" && !after {
+            if g.1.is_empty() {
+                g.1 = op.role.clone();
+            }
+            if g.1 == op.role && !g.2 {
+                g.0 += 1;
+                if g.0 == k {
+                    g.2 = true;
+                    cv.notify_all();
+                    let t0 = std::time::Instant::now();
+                    while !g.4 && g.3 < 6 && t0.elapsed() < Duration::from_millis(1200) {
+                        let (g2, _) = cv.wait_timeout(g, Duration::from_millis(20)).unwrap();
+                        g = g2;
+                    }
+                    g.4 = true;
+                }
+            }
+        } else if op.op == "open_write" && after && g.2 && !g.4 && g.1 != op.role {
+            g.3 += 1;
+            cv.notify_all();
+        }
+    })));
+    for id in 1..=4u64 {
+        w.exec(&json!({"op":"add","id":id,"t":pick(rng, &["a","b"]),"v":id as i64}));
+    }
+    w.exec(&json!({"op":"commit"}));
+    let (parked, overtaken) = { let g = st.0.lock().unwrap(); (g.2, g.3) };
+    w.dir.set_gate(None);
+    tracer.emit(json!({"ev":"schedule","name":format!("a worker parked before its .managed.json replacement #{k} while the other worker registers and creates files"),"realised":parked,"overtaken_by":overtaken}));
+    w.exec(&json!({"op":"wait_merges"}));
+    w.exec(&json!({"op":"new_writer"}));
+    w.exec(&json!({"op":"gc"}));
+    w.exec(&json!({"op":"wait_merges"}));
+    w.exec(&json!({"op":"observe"}));
+    tantivy::verif::set_sink(None);
+    tracer.emit(json!({"ev":"end","listing":w.dir.listing(),"locks":w.dir.lock_files(),"managed":w.managed()}));
+}
+
 fn run_gcrace(tracer: &Tracer, rng: &mut StdRng, r: u64, tag: Value) {
     use std::sync::{Arc, Condvar, Mutex};
     use std::time::Duration;
@@ -393,6 +456,10 @@ fn main() {
             let mut rng = StdRng::seed_from_u64(seed);
             for r in 0..runs {
                 run_gcrace(&tracer, &mut rng, r, json!({"seed":seed,"run":r,"gcrace":true}));
+            }
+            // two workers registering files at the same time (one parked before its .managed.json replacement)
+            for r in 0..a.num("manrace", 3) {
+                run_manrace(&tracer, &mut rng, r, json!({"seed":seed,"run":r,"manrace":true}));
             }
         }
         "producers" => {
